@@ -1,3 +1,4 @@
 from . import leaf  # noqa
 from . import tables  # noqa
 from . import classes  # noqa
+from . import quant  # noqa
